@@ -51,11 +51,15 @@ A_PY = [
     "_pw = 3",
 ]
 INIT_PY = ["from pkg.a import f as f", "from pkg.a import K", "from pkg._priv import helper", "from pkg._priv import pub_helper", '__all__ = ["f", "K", "VALUE", "Sub", "pub_helper"{EXTRA_ALL}]', "VALUE = 1", "class Sub(K):\n    pass"]
+# a module that exports nothing (`__all__ = []`): all of it is private, whatever the names look like
+INTERNAL_PY = ["__all__ = []", "DEFAULT = 1", "def ihelper(a, b): ...", "class Impl:\n    def run(self): ..."]
 PRIV_PY = ["def helper(): ...", "def pub_helper(a): ..."]  # pub_helper: defined in a private module, public only through the re-export pkg.pub_helper
 VARIANTS = {
     "plain": {"init_extra": [], "a_extra": [], "all": ""},
     "unresolvable-reexport": {"init_extra": ["from pkg.missing import gone"], "a_extra": [], "all": ', "gone"'},
     "cyclic-reexport": {"init_extra": ["from pkg.a import cyc"], "a_extra": ["from pkg import cyc"], "all": ', "cyc"'},
+    # a cycle of PUBLIC MODULES: the package exports its submodule a, a exports the package back (CPython imports this fine; pkg.a.pkg.a.f is a valid path)
+    "module-cycle": {"init_extra": ["from pkg import a"], "a_extra": ["import pkg", '__all__ = ["f", "Base", "K", "L", "w", "pkg"]'], "all": ', "a"'},
 }
 # public paths through which an object can be reached
 PUBLIC = {
@@ -65,7 +69,7 @@ PUBLIC = {
     "pkg.a.f@definition": {"pkg.a.f"}, "pkg.a.Base.bm@definition": {"pkg.a.Base.bm"},
     "pkg.a.Base": {"pkg.a.Base"}, "pkg.a._PB.pbm": {"pkg.a.Base.pbm", "pkg.a.K.pbm", "pkg.K.pbm", "pkg.Sub.pbm", "pkg.a.L.pbm"}, "pkg.a.w": {"pkg.a.w"}, "pkg.VALUE": {"pkg.VALUE"}, "pkg.Sub": {"pkg.Sub"}, "pkg.a.Base.battr": {"pkg.a.Base.battr", "pkg.a.K.battr", "pkg.K.battr", "pkg.Sub.battr", "pkg.a.L.battr"},
 }
-PRIVATE_MARKERS = ("_g", "_pm", "_pw", "helper", "_priv", "_PB")
+PRIVATE_MARKERS = ("_g", "_pm", "_pw", "helper", "_priv", "_PB", "internal")
 
 
 def _sub(stmts, old, new):
@@ -98,6 +102,10 @@ def catalogue():
     edit("rekind-unexported-import-target", True, P, lambda s: _sub(s, "def helper(): ...", "helper = 1"))
     edit("add-to-init", True, I, lambda s: s + ["def init_new(): ..."])
     edit("change-overridden-attr-of-private-base", True, A, lambda s: _sub(s, "    shared = 1", "    shared = 9"))
+    N = "pkg/internal.py"
+    edit("change-value-in-module-exporting-nothing", True, N, lambda s: _sub(s, "DEFAULT = 1", "DEFAULT = 2"))
+    edit("rekind-in-module-exporting-nothing", True, N, lambda s: _sub(s, "class Impl:\n    def run(self): ...", "Impl = 1"))
+    edit("remove-param-in-module-exporting-nothing", True, N, lambda s: _sub(s, "def ihelper(a, b): ...", "def ihelper(a): ..."))
     # incompatible
     edit("remove-f", False, A, lambda s: [x for x in s if not x.startswith("def f(")], ("pkg.a.f", "removed", None))
     edit("rekind-f", False, A, lambda s: _sub(s, 'def f(x, y=1):\n    """Doc f."""', "f = 1"), ("pkg.a.f", "kind", None))
@@ -155,7 +163,7 @@ def bounds(tier):
 def base_files(variant):
     v = VARIANTS[variant]
     init = [s.replace("{EXTRA_ALL}", v["all"]) for s in INIT_PY] + v["init_extra"]
-    return {"pkg/__init__.py": init, "pkg/a.py": A_PY + v["a_extra"], "pkg/_priv.py": list(PRIV_PY)}
+    return {"pkg/__init__.py": init, "pkg/a.py": A_PY + v["a_extra"], "pkg/_priv.py": list(PRIV_PY), "pkg/internal.py": list(INTERNAL_PY)}
 
 
 def apply_script(variant, script):
